@@ -135,10 +135,26 @@ def sliceHi (g : Guard) (mlen : Int) : Int :=
   | .orig => wrap32 (32 + mlen)
   | .fixed => 32 + mlen
 
-/-- `DeserializeEncrypted(data, authKey)`, in the code's order: key id, decrypt (error when the
-ciphertext is empty or not a multiple of 16), the five header pops, the length guard, the msg_id
-parity, the slice `decrypted[0:32+messageLen]` (panics when out of range), the msg_key comparison,
-the body pop. -/
+/-- the second half of `DeserializeEncrypted`, after decryption: the five header pops, the length
+guard, the msg_id parity, the slice `decrypted[0:32+messageLen]` (panics when out of range), the
+msg_key comparison, the body pop. -/
+def openInner (g : Guard) (P : Prims) (mk dec : Bytes) : Outcome Msg :=
+  let q1 := (Rd.mk dec false).word 8
+  let q2 := q1.2.word 8
+  let q3 := q2.2.word 8
+  let q4 := q3.2.word 4
+  let q5 := q4.2.word 4
+  let mlen : Int := toSigned 32 q5.1
+  if guardRefuses g dec.length mlen then .err "tooSmall"
+  else if q3.1 % 4 ≠ 1 ∧ q3.1 % 4 ≠ 3 then .err "parity"
+  else
+    let hi := sliceHi g mlen
+    if hi < 0 ∨ (dec.length : Int) < hi then .panic siteOpen
+    else if slice (P.H (dec.take hi.toNat)) 4 20 ≠ mk then .err "wrongMsgKey"
+    else .ok ⟨q1.1, q2.1, q3.1, q4.1, (q5.2.raw mlen).1⟩
+
+/-- `DeserializeEncrypted(data, authKey)`, in the code's order: key id, msg_key and ciphertext pops,
+decrypt (error when the ciphertext is empty or not a multiple of 16), then `openInner`. -/
 def openClientG (g : Guard) (P : Prims) (key data : Bytes) : Outcome Msg :=
   let p1 := (Rd.mk data false).raw 8
   if p1.1 ≠ authKeyId P key then .err "wrongKey"
@@ -148,20 +164,7 @@ def openClientG (g : Guard) (P : Prims) (key data : Bytes) : Outcome Msg :=
     match decrypt P p3.1 key p2.1 with
     | .panic s => .panic s
     | .err e => .err e
-    | .ok dec =>
-      let q1 := (Rd.mk dec false).word 8
-      let q2 := q1.2.word 8
-      let q3 := q2.2.word 8
-      let q4 := q3.2.word 4
-      let q5 := q4.2.word 4
-      let mlen : Int := toSigned 32 q5.1
-      if guardRefuses g dec.length mlen then .err "tooSmall"
-      else if q3.1 % 4 ≠ 1 ∧ q3.1 % 4 ≠ 3 then .err "parity"
-      else
-        let hi := sliceHi g mlen
-        if hi < 0 ∨ (dec.length : Int) < hi then .panic siteOpen
-        else if slice (P.H (dec.take hi.toNat)) 4 20 ≠ p2.1 then .err "wrongMsgKey"
-        else .ok ⟨q1.1, q2.1, q3.1, q4.1, (q5.2.raw mlen).1⟩
+    | .ok dec => openInner g P p2.1 dec
 
 /-- the receive path of the repaired code -/
 def openClient (P : Prims) (key data : Bytes) : Outcome Msg := openClientG .fixed P key data
